@@ -42,9 +42,11 @@ def main():
             try:
                 subprocess.run(['patch', '-p1', '-s', '-i', f], cwd=d, check=True)
                 rc, last = run(prop, d)
+                # exit 0 is the wanted answer; exit 2 (undecided: the edit left the verified subset or renamed a local the
+                # proof text names) is not an alarm but is flagged; exit 1 on a behaviour-preserving edit is a false alarm
                 ok = rc == 0
-                bad += 0 if ok else 1
-                print('%s harmless %s -> exit %d %s' % ('ok  ' if ok else 'FAIL', os.path.basename(f), rc, last[:120]))
+                bad += 1 if rc == 1 else 0
+                print('%s harmless %s -> exit %d %s' % ('ok  ' if ok else ('und ' if rc == 2 else 'FAIL'), os.path.basename(f), rc, last[:120]))
             finally:
                 shutil.rmtree(d, ignore_errors=True)
     if what in ('seeded', 'all'):
